@@ -5,6 +5,7 @@ import copy
 import re
 
 from ..fold import NotConst, Regex
+from ..flow import block_of
 from ..model import npos, AnalysisError, U, walk_no_nested, parent, clone
 from ..tables import sre_parse, sre_c, shape_of
 from .tablerules import tables_of, PLACEHOLDER
@@ -659,6 +660,84 @@ def r26_sign_prop(ctx):
                       prop, dom, capture), ("C17", "C08"))
 
 
+def _r27_sign_flag(ctx, rep, rule, f, guard, P):
+    """The flag that sends Duration.__str__ to '-' + str(abs(self)) is
+    raised by a negative component and by nothing else, and a positive
+    component lowers it for good (a mixed duration keeps its inner signs:
+    abs() would change its value)."""
+    from ..flow import path_conds
+    key = ctx.fkey(f, None, "sign-flag")
+    if not isinstance(guard, ast.Name):
+        rep.undecided(rule, key, f.loc(), "the all-negative test `%s` is "
+                      "not a flag set in a loop over the components: not "
+                      "read here" % U(guard)[:60], P)
+        return
+    g = guard.id
+    sets = [n for n in walk_no_nested(f.node) if isinstance(n, ast.Assign)
+            and len(n.targets) == 1 and U(n.targets[0]) == g]
+    loops = [l for l in walk_no_nested(f.node) if isinstance(l, ast.For)]
+
+    def loop_of(n):
+        for l in loops:
+            if any(x is n for x in ast.walk(l)):
+                return l
+        return None
+    inside = [n for n in sets if loop_of(n) is not None]
+    outside = [n for n in sets if loop_of(n) is None]
+    if not inside or len(outside) != 1 or U(outside[0].value) != "False" \
+            or not all(U(n.value) in ("True", "False") for n in inside):
+        rep.undecided(rule, key, f.loc(), "the flag `%s` is not of the "
+                      "form `flag = False; for ...: flag = True/False`" % g,
+                      P)
+        return
+
+    def sign_atoms(n):
+        out = set()
+        for t, pol in path_conds(n, stop=loop_of(n)):
+            if isinstance(t, ast.UnaryOp) and isinstance(t.op, ast.Not):
+                t, pol = t.operand, not pol
+            if not (isinstance(t, ast.Compare) and len(t.ops) == 1):
+                continue
+            a, b, op = t.left, t.comparators[0], type(t.ops[0])
+            if U(a) == "0":
+                a, b = b, a
+                op = {ast.Lt: ast.Gt, ast.Gt: ast.Lt, ast.LtE: ast.GtE,
+                      ast.GtE: ast.LtE}.get(op, op)
+            if U(b) != "0" or op not in (ast.Lt, ast.Gt, ast.LtE, ast.GtE):
+                continue
+            if not pol:
+                op = {ast.Lt: ast.GtE, ast.Gt: ast.LtE, ast.LtE: ast.Gt,
+                      ast.GtE: ast.Lt}[op]
+            out.add(op)
+        return out
+    bad = []
+    for n in inside:
+        at = sign_atoms(n)
+        if U(n.value) == "True":
+            if ast.Lt not in at:
+                bad.append("`%s = True` under %s, not under `component < "
+                           "0`" % (g, " and ".join(
+                               ("" if pol else "not ") + U(t) for t, pol in
+                               path_conds(n, stop=loop_of(n)))[:80] or
+                               "no condition"))
+        else:
+            owner, fld, lst = block_of(n)
+            after = lst[lst.index(n) + 1:] if lst else []
+            leaves_ = any(isinstance(x, (ast.Break, ast.Return))
+                          for x in after)
+            if ast.Gt not in at or not leaves_:
+                bad.append("`%s = False` %s" % (g, "is not followed by a "
+                           "break" if ast.Gt in at else "not under "
+                           "`component > 0`"))
+    rep.check(not bad, rule, key, f.loc(inside[0]),
+              "the all-negative flag is raised by a negative component only "
+              "and lowered for good by a positive one",
+              "Duration.__str__: %s: a duration whose components are all "
+              "negative is written with the signs inside (P-1Y-2M), which "
+              "the parser does not read, or a mixed one loses its inner "
+              "signs" % "; ".join(bad), P)
+
+
 def _depends_on(f, expr, name, depth=0, seen=None):
     seen = seen or set()
     for n in ast.walk(expr):
@@ -1119,6 +1198,7 @@ def r27_dur_table(ctx):
                   "not pass the all-negative guard: a negative duration is "
                   "written with the sign inside (P-5W), which the parser "
                   "does not read" % late, P)
+        _r27_sign_flag(ctx, rep, rule, f, guard, P)
     elif w_minus:
         rep.error("R27", "Duration.__str__: the return writing the leading "
                   "'-' was not identified")
@@ -1466,12 +1546,30 @@ def r29_strf_table(ctx):
     body = [st for st in f.node.body if not (isinstance(st, ast.Expr) and
                                              isinstance(st.value,
                                                         ast.Constant))]
-    first = body[0] if body else None
-    ok = isinstance(first, ast.If) and "not in STRFTIME_TRANSLATE_INFO" in U(
-        first.test) and isinstance(first.body[0], ast.Raise)
-    exc_ok = False
-    if ok:
-        exc = first.body[0].exc
+    # read off the decision table: a path that raises, selected by nothing
+    # but "the token is not a key of the table" (membership test or a
+    # .get() that came back None), before any loop
+    from ..dtable import explore as _explore_r
+    ok, exc_ok = False, False
+    try:
+        paths_r = _explore_r(body)
+    except AnalysisError:
+        paths_r = []
+    tok = f.params[0] if f.params else "strftime_token"
+    for p_ in paths_r:
+        if p_.outcome != "raise" or p_.skipped or len(p_.decisions) != 1:
+            continue
+        (atom, val), = p_.decisions.items()
+        a_ = atom.replace(" ", "")
+        absent = (a_ == "%sinSTRFTIME_TRANSLATE_INFO" % tok and
+                  val is False) or (
+            a_ in ("STRFTIME_TRANSLATE_INFO.get(%s)isNone" % tok,
+                   "STRFTIME_TRANSLATE_INFO.get(%s,None)isNone" % tok)
+            and val is True)
+        if not absent:
+            continue
+        ok = True
+        exc = p_.value
         name = U(exc.func) if isinstance(exc, ast.Call) else U(exc)
         r = ctx.model.resolve_name_in_module(f.module, ast.Name(id=name))
         exc_ok = hasattr(r, "mro") and "ValueError" in \
@@ -1553,8 +1651,12 @@ def r29_strf_table(ctx):
                 continue
             seen.add(g.qual)
             for n in walk_no_nested(g.node):
-                if isinstance(n, ast.Call) and "REC_" in U(n.func):
-                    out.add(U(n.func))
+                # (called directly, or bound to a local first)
+                if isinstance(n, ast.Attribute) and isinstance(
+                        n.value, ast.Attribute) and "REC_" in n.value.attr \
+                        and n.attr in ("split", "search", "match",
+                                       "fullmatch", "sub", "findall"):
+                    out.add(U(n))
                 ref = None
                 if isinstance(n, ast.Name) and isinstance(n.ctx, ast.Load):
                     ref = g.module.functions.get(n.id)
